@@ -549,6 +549,9 @@ type cliCase struct {
 	env    bool
 	wfail  int
 	cancel int
+	// cancelW > 0: the context becomes done while the cancelW-th SASL element (from 1) the
+	// initiator writes is inside the connection's Write (line field "w<n>", n from 0)
+	cancelW int
 	// pol != "": operation "clip" (steps may panic; pol = the probed recovery policy)
 	pol string
 }
@@ -607,6 +610,9 @@ func (c cliCase) line() string {
 		}
 		if c.cancel >= 0 {
 			k = fmt.Sprint(c.cancel)
+		}
+		if c.cancelW > 0 {
+			k = fmt.Sprintf("w%d", c.cancelW-1)
 		}
 		return fmt.Sprintf("clie %s %s %s %s %s %s", b, k, encNames(c.mechs), encNames(c.adv), fieldSteps(c.steps), common.Join(c.peer, ","))
 	}
@@ -694,7 +700,16 @@ func runClient(r *common.Run, c cliCase, class string) error {
 		// write 1 is the stream header
 		conn.FailWriteCall = 1 + c.wfail
 	}
-	res := negotiateCtx(ctx, conn, false, xmpp.SASL("", "secret", mechs...))
+	var rw io.ReadWriter = conn
+	if c.env && c.cancelW > 0 {
+		// write 1 is the stream header
+		rw = &hookConn{Conn: conn, onWrite: func(n int) {
+			if n == 1+c.cancelW {
+				cancelCtx()
+			}
+		}}
+	}
+	res := negotiateRW(ctx, conn, rw, false, xmpp.SASL("", "secret", mechs...))
 	if c.dyn != nil {
 		c.peer = delivered
 	}
@@ -1901,6 +1916,17 @@ func genRoundD(r *common.Run, rnd *common.Rand, pol policies) {
 			}
 		}
 	}
+	// ---- initiating side: the context becomes done while the w-th element is being written ----
+	for _, sc := range append(cliStepScripts(), stepShapes(2, 0xA0)...) {
+		for _, peer := range [][]string{{}, {"s-"}, {"cv01"}, {"cv01", "s-"}, {"cv01", "cv02", "s-"}, {"cv01", "cv02", "cv03", "s-"}, {"sv01"}, {"cv01", "f"}} {
+			for w := 1; w <= 4; w++ {
+				for _, wf := range []int{0, w, w + 1} {
+					_ = runClient(r, cliCase{mechs: []string{"M1"}, adv: []string{"M1"}, steps: sc, peer: peer, env: true, wfail: wf, cancel: -1, cancelW: w}, "cli-env-write")
+				}
+			}
+		}
+	}
+
 	// ---- receiving side: the real SCRAM mechanisms and ANONYMOUS configured on SASLServer ----
 	// (a real SCRAM client's messages; SASLServer has no salted credentials, so SCRAM can only
 	// fail closed; whatever the mechanism does is observed and replayed through the model)
@@ -2097,6 +2123,9 @@ var corpus = []string{
 	"cli M1 M1 mv01,d- cv01",
 	// premature <success/> while the mechanism wants more, then completion on a challenge
 	"cli M1 M1 mv01,mv02,d- sv01,cv02",
+	// premature <success/> accepted when the mechanism's response at that Step is empty
+	"cli M1 M1 mv01,m-,d- sv02",
+	"cli M1 M1 m-,m-,d- s-",
 }
 
 func replayLine(r *common.Run, l string) error {
@@ -2137,7 +2166,10 @@ func replayLine(r *common.Run, l string) error {
 			fmt.Sscanf(f[1], "%d", &c.wfail)
 			c.wfail++
 		}
-		if f[2] != "-" {
+		if strings.HasPrefix(f[2], "w") {
+			fmt.Sscanf(f[2][1:], "%d", &c.cancelW)
+			c.cancelW++
+		} else if f[2] != "-" {
 			fmt.Sscanf(f[2], "%d", &c.cancel)
 		}
 		return runClient(r, c, "replay")
